@@ -259,8 +259,12 @@ def gen_tsamples(rng, dt, tmax_hint):
 
 
 def gen_script(rng, option, space_kind=None, dyadic=None, policy=None, static=False, degenerate=False, sub_molecule=False,
-               units=True, max_steps=120, mode=None, zero_tmax=None):
-    """(script description for life_child, info) — a VALID script"""
+               units=True, max_steps=120, mode=None, zero_tmax=None, quantity=None):
+    """(script description for life_child, info) — a VALID script.  `units`: True (half of the scripts state their time
+    quantities in their own units and use a units system with another time unit and a quantity unit that may differ from
+    molecule), False, or "force"; `quantity`: force that quantity unit.
+    info["expect"]: the time quantities in ENGINE units computed here from the values in seconds (independent of the
+    package's unit conversion)"""
     stochastic = option != "euler"
     dyadic = rng.random() < 0.6 if dyadic is None else dyadic
     if dyadic:
@@ -280,7 +284,8 @@ def gen_script(rng, option, space_kind=None, dyadic=None, policy=None, static=Fa
     explicit_tmax = rng.random() < 0.6 or not ts or option == "gillespie" or zero_tmax
     if explicit_tmax:
         kw["t_max"] = tmax
-    vary_units = units and rng.random() < 0.5
+    vary_units = bool(units) and (units == "force" or rng.random() < 0.5)
+    secs = {"time_step": dt, "t_max": kw.get("t_max"), "t_sample": list(ts)}
     if policy == "on_interval" or rng.random() < 0.3:
         if dyadic and not vary_units:
             kw["sampling_interval"] = rng.choice([dt, 2 * dt, 2.5 * dt, 0.25 * dt, 7 * dt, dt * 1.5])
@@ -288,20 +293,31 @@ def gen_script(rng, option, space_kind=None, dyadic=None, policy=None, static=Fa
             # no (near-)coincidence of steps and multiples, so that floor(t/interval) is unambiguous in doubles
             kw["sampling_interval"] = dt * rng.choice([1.4142135623, 0.6180339887, 2.7182818284, 7.3890560989, 1.0001000123])
     if mode is None:
-        mode = rng.choice(["auto", "auto", "none", "redist", "Poisson"]) if stochastic else rng.choice(["auto", "none"])
+        mode = rng.choice(["auto", "auto", "none", "redist", "Poisson"]) if stochastic else rng.choice(["auto", "none", "none", "redist", "Poisson"])
     kw["init_state_processing"] = mode
     tu = "s"
+    su = "s"
+    form = "plain"
+    if "sampling_interval" in kw:
+        secs["sampling_interval"] = kw["sampling_interval"]
     if vary_units:
         # time quantities stated in their own units, script units system with another time unit
         tu = rng.choice(TIME_UNITS)
         su = rng.choice(TIME_UNITS)
-        kw["units_system"] = {"time": su, "space": rng.choice(["µm", "nm", "mm"]), "quantity": rng.choice(["molecule", "mol", "µmol"])}
+        kw["units_system"] = {"time": su, "space": rng.choice(["µm", "nm", "mm"]), "quantity": quantity or rng.choice(["molecule", "mol", "µmol"])}
         for key in ("time_step", "t_max", "sampling_interval"):
             if key in kw:
                 kw[key] = "%r %s" % (kw[key] * float(1 / TIME_SI[tu]), tu)
-        kw["t_sample"] = {"__unitarray__": [t * float(1 / TIME_SI[tu]) for t in ts], "units": tu}
+        form = rng.choice(["unitarray", "unitarray", "dict", "strings"])
+        kw["t_sample"] = {"__unitarray__": [t * float(1 / TIME_SI[tu]) for t in ts], "units": tu, "form": form}
+    # engine units = the script's units system with the quantity unit replaced: times in `su`
+    f = float(1 / TIME_SI[su])
+    expect = {"dt": secs["time_step"] * f, "tsamples": [t * f for t in secs["t_sample"]],
+              "tmax": (secs["t_max"] * f if secs["t_max"] is not None else (secs["t_sample"][-1] * f if secs["t_sample"] else None)),
+              "interval": (secs["sampling_interval"] * f if "sampling_interval" in secs else 1.0), "time_unit": su, "stated_in": tu}
     info = {"option": option, "policy": policy, "dyadic": dyadic and tu == "s" and "units_system" not in kw, "style": style, "nsp": nsp, "n": n,
-            "space": system["space"]["type"], "mode": mode, "static": static, "explicit_tmax": explicit_tmax, "units": "units_system" in kw}
+            "space": system["space"]["type"], "mode": mode, "static": static, "explicit_tmax": explicit_tmax, "units": "units_system" in kw,
+            "expect": expect, "ts_form": form, "quantity": (kw["units_system"]["quantity"] if "units_system" in kw else "molecule")}
     return {"system": system, "kw": kw}, info
 
 
@@ -314,6 +330,25 @@ def script_model_json(meta, policy, space_kind, clock=(), stop=None, raises=Fals
             "tsamples": [rstr(v) for v in meta.get("tsamples", [])], "interval": rstr(meta.get("interval", 1.0)),
             "tmax": rstr(meta.get("tmax", -1.0)), "dt": rstr(meta.get("dt", 1.0)), "clock": [rstr(v) for v in clock],
             "stop": stop, "size": int(meta.get("size", 0)), "raises": bool(raises)}
+
+
+def init_failures(x):
+    """from the record of the wrapped engineexport_initialize_* call of a setup / simulate result: every buffer has the
+    length of the count passed alongside, and the native code accepted the script (return code 0).
+    Returns [(key, what, impl, expected)]"""
+    rec = x.get("init")
+    bad = []
+    if not rec:
+        return bad
+    for b in rec.get("bad", []):
+        bad.append(("buffer-length:%s" % b["arg"], "%s is handed a %s buffer of %r entries with the count %r: the engine reads %r entries"
+                    % (rec["fn"], b["arg"], b["buffer_length"], b["count_passed"], b["count_passed"]), b["buffer_length"], b["count_passed"]))
+    if rec.get("inspect_error"):
+        bad.append(("init-arguments", "the arguments of %s could not be inspected (%s): signature changed?" % (rec["fn"], rec["inspect_error"]), rec["inspect_error"], None))
+    if rec.get("rc", 0) != 0 and "raised" not in x:
+        bad.append(("native-init-rc", "%s returned error code %d for a script the Python setters accepted, and setup() went on (the object is "
+                    "used without having been initialised)" % (rec["fn"], rec["rc"]), rec["rc"], 0))
+    return bad
 
 
 def fmatch(a, b, f=1.0, rel=1e-12):
